@@ -322,3 +322,28 @@ def units(prop, tier):
         out.append(pyvc_unit(prop, 'factory.DES3.adjust_key_parity_badlen', lambda: registry(akp='badlen'), [AKP]))
         out.append(pyvc_unit(prop, 'factory.DES3.parity_lemma', lambda: registry(akp='lemma'), ['spec.modes.lemma_parity']))
     return out
+
+
+# ======================================================================================================================
+# Notes
+#
+# adjust_key_parity: the symbolic instances (16 / 24 individual bytes) are proved against spec.modes.des_parity, which folds the
+#   parity bit by bit (odd_parity_fold, same shape as the code); unit factory.DES3.parity_lemma proves fold == the declarative
+#   arithmetic definition (bits 7..1 kept, odd number of ones) for every byte.  z3 proves these but does not FIND counter-models
+#   of a wrong parity rule (undecided, exit 2); the ground instances of unit factory.DES3.adjust_key_parity_all_bytes (every byte
+#   value, all K1/K2/K3 coincidence patterns) decide those.
+# OBSERVATION: Cipher._create_cipher ignores positional arguments for mode ids that take none other than ECB and CTR (KW / KWP,
+#   unknown ids); `kwargs[...] = args[0]` silently overrides a keyword of the same name.
+#
+# Strength check (tools/mut.py):
+#   AES.py   dict_parameters.get("use_aesni", True)  (not popped)          exit 1 @ AES._create_base_cipher.ensures.popped, ensures.rest (C16)
+#   AES.py   if _raw_aesni_lib:  (use_aesni ignored)                       exit 1 @ AES._create_base_cipher.ensures.impl
+#   AES.py   AESNI start paired with AES_stop_operation                    exit 1 @ AES._create_base_cipher.ensures.pair
+#   AES.py   key-length check only when use_aesni                          exit 1 @ AES._create_base_cipher.call_pre.key_len_len_key
+#   DES3.py  for i in range(1, 7)                                          exit 1 @ adjust_key_parity.ensures.parity_first, parity_last, value (all_bytes unit)
+#   DES3.py  K2 == K3 test removed                                         exit 1 @ adjust_key_parity.raises_iff.ValueError.if
+#   DES3.py  key_byte & 0xFC                                               exit 1 @ adjust_key_parity.ensures.parity_last, ensures.value
+#   DES3.py  RENAME parity -> par                                          exit 0
+#   Cipher/__init__.py  elif mode in (2, 3, 5)  (7 dropped)                exit 1 @ _create_cipher.ensures.positional, raises_iff.TypeError.if
+#   Cipher/__init__.py  kwargs["IV"] = args[0]  (nonce modes)              exit 1 @ _create_cipher.ensures.positional, ensures.passed_on
+#   Cipher/__init__.py  elif True:  (extra modes for every cipher)         exit 1 @ _create_cipher.ensures.dispatch, raises_iff.ValueError.if
